@@ -25,6 +25,7 @@ import (
 	"os"
 	"strconv"
 	"strings"
+	"sync/atomic"
 	"syscall"
 	"time"
 
@@ -47,6 +48,7 @@ type eventloop struct {
 	buffer       []byte            // read packet buffer whose capacity is set by user, default value is 64KB
 	connections  connMatrix        // loop connections storage
 	eventHandler EventHandler      // user eventHandler
+	exited       atomic.Bool       // the loop has left Polling and closed its connections
 }
 
 func (el *eventloop) Register(ctx context.Context, addr net.Addr) (<-chan RegisteredResult, error) {
@@ -103,11 +105,32 @@ func (el *eventloop) closeConns() {
 		_ = el.close(c, nil)
 		return true
 	})
+	// This event-loop is not going to run any task anymore,
+	// take care of the connections that are still waiting to be registered.
+	el.abortPending()
 }
 
 type connWithCallback struct {
-	c  *conn
-	cb func()
+	c   *conn
+	cb  func()
+	err error // set before cb is called if the connection has not been registered
+}
+
+// abortPending closes the connections whose registration is still waiting in the task queue
+// of an event-loop that has exited, and tells the goroutines that are waiting for them.
+// Whoever hands a connection to an event-loop must call it when it finds the event-loop exited
+// after the hand-over, that way every connection is either registered or closed.
+func (el *eventloop) abortPending() {
+	el.exited.Store(true)
+	el.poller.Drain(func(task *queue.Task) {
+		if ccb, ok := task.Param.(*connWithCallback); ok {
+			_ = unix.Close(ccb.c.fd)
+			ccb.err = errorx.ErrEngineInShutdown
+			if ccb.cb != nil {
+				ccb.cb()
+			}
+		}
+	})
 }
 
 func (el *eventloop) enroll(c net.Conn, addr net.Addr, ctx any) (resCh chan RegisteredResult, err error) {
@@ -190,12 +213,20 @@ func (el *eventloop) enroll(c net.Conn, addr net.Addr, ctx any) (resCh chan Regi
 		ccb := &connWithCallback{c: gc, cb: func() {
 			close(connOpened)
 		}}
-		if err := el.poller.Trigger(queue.LowPriority, el.register, ccb); err != nil {
+		if err := el.poller.Trigger(queue.LowPriority, el.register, ccb); err != nil && !el.exited.Load() {
 			gc.Close() //nolint:errcheck
 			resCh <- RegisteredResult{Err: err}
 			return
 		}
+		if el.exited.Load() {
+			// The event-loop has exited in the meantime, it won't register this connection.
+			el.abortPending()
+		}
 		<-connOpened
+		if ccb.err != nil {
+			resCh <- RegisteredResult{Err: ccb.err}
+			return
+		}
 
 		resCh <- RegisteredResult{Conn: gc}
 	})
@@ -207,7 +238,9 @@ func (el *eventloop) register(a any) error {
 	if !ok {
 		ccb := a.(*connWithCallback)
 		c = ccb.c
-		defer ccb.cb()
+		if ccb.cb != nil {
+			defer ccb.cb()
+		}
 	}
 	return el.register0(c)
 }
